@@ -234,9 +234,37 @@ fn glue<const N: usize>(size: SymbolSize, idx: usize) {
     assert!(t.data == N);
     let b = t.blocks;
     let k = t.ecc / b;
+    // data: a fixed pattern, with the first and the last codeword of every block symbolic
+    // (sizes up to 280 data codewords are also run with EVERY codeword symbolic: glue_full)
+    let mut data = [0u8; N];
+    let mut i = 0;
+    while i < N {
+        data[i] = ((i * 31 + 7) % 251) as u8;
+        i += 1;
+    }
+    let head: [u8; 10] = kani::any();
+    let tail: [u8; 10] = kani::any();
+    i = 0;
+    while i < 10 {
+        if i < b {
+            data[i] = head[i];
+            data[N - b + i] = tail[i];
+        }
+        i += 1;
+    }
+    check_glue::<N>(&data, size, t.ecc, b);
+}
+
+fn glue_full<const N: usize>(size: SymbolSize, idx: usize) {
+    let t = TABLE[idx];
+    assert!(t.data == N);
     let data: [u8; N] = kani::any();
-    let ecc = encode_error(&data, size);
-    assert!(ecc.len() == t.ecc);
+    check_glue::<N>(&data, size, t.ecc, t.blocks);
+}
+
+fn check_glue<const N: usize>(data: &[u8; N], size: SymbolSize, necc: usize, b: usize) {
+    let ecc = encode_error(data, size);
+    assert!(ecc.len() == necc);
     let mut q = 0;
     while q < b {
         // block q = data codewords q, q+b, q+2b, ...
@@ -266,6 +294,20 @@ macro_rules! glueh {
         }
     };
 }
+macro_rules! gluefull {
+    ($name:ident, $unwind:expr, $size:ident, $idx:expr, $n:expr) => {
+        #[kani::proof]
+        #[kani::unwind($unwind)]
+        #[kani::stub(ecc_block, stub_ecc_block)]
+        fn $name() {
+            assert!(VARIANTS[$idx] == SymbolSize::$size);
+            glue_full::<$n>(SymbolSize::$size, $idx);
+        }
+    };
+}
+gluefull!(rs_gluefull_sq52, 206, Square52, 14, 204);
+gluefull!(rs_gluefull_sq10, 8, Square10, 0, 3);
+gluefull!(rs_gluefull_r16x48, 64, Rect16x48, 29, 49);
 glueh!(rs_glue_sq52, 206, Square52, 14, 204);
 glueh!(rs_glue_sq64, 282, Square64, 15, 280);
 glueh!(rs_glue_sq72, 370, Square72, 16, 368);
